@@ -504,6 +504,8 @@ func (d *DataStore) appendIndexHostsFromHostColumns(uniqHosts map[string]bool, f
 		// name =~ <value>
 		case EqualNocase:
 			uniqHosts[fil.stringVal] = true
+			// names which are all lower case are not part of the lower case index
+			uniqHosts[strings.ToLower(fil.stringVal)] = true
 			for _, key := range d.indexLowerCase[strings.ToLower(fil.stringVal)] {
 				uniqHosts[key] = true
 			}
@@ -517,6 +519,7 @@ func (d *DataStore) appendIndexHostsFromHostColumns(uniqHosts map[string]bool, f
 		// name == <value>
 		case Equal, EqualNocase:
 			uniqHosts[fil.stringVal] = true
+			uniqHosts[strings.ToLower(fil.stringVal)] = true
 			for _, key := range d.indexLowerCase[strings.ToLower(fil.stringVal)] {
 				uniqHosts[key] = true
 			}
@@ -676,29 +679,8 @@ func (d *DataStore) appendIndexFromPrimaryKey(uniqRows map[string]bool, fil *Fil
 
 			return true
 
-		// name =~ <value>
-		case EqualNocase:
-			uniqRows[fil.stringVal] = true
-			for _, key := range d.indexLowerCase[strings.ToLower(fil.stringVal)] {
-				uniqRows[key] = true
-			}
-
-			return true
 		default:
-			// other operators are not supported
-		}
-	case key + "_lc":
-		switch fil.operator {
-		// name == <value>
-		case Equal, EqualNocase:
-			uniqRows[fil.stringVal] = true
-			for _, key := range d.indexLowerCase[strings.ToLower(fil.stringVal)] {
-				uniqRows[key] = true
-			}
-
-			return true
-		default:
-			// other operators are not supported
+			// other operators are not supported, the lower case index exists for the hosts table only
 		}
 	default:
 		// other operator are not supported
